@@ -46,6 +46,13 @@ def main():
         if rc != 0:
             rc, out = sh("git reset -q --hard ; git apply -3 %s/patch.diff && git reset -q" % d, cwd=WT)
         if rc != 0:
+            # written against an earlier HEAD: apply it there, then replay the commits made since (hooks) on top
+            base = meta.get("confirmation", {}).get("repo_head")
+            if base:
+                rc, out = sh("git reset -q --hard ; git checkout -q --detach %s && git apply %s/patch.diff && git -c user.name=x -c user.email=x@x commit -qam seeded && git -c user.name=x -c user.email=x@x cherry-pick %s..%s >/dev/null 2>&1 && git reset -q --soft %s && git reset -q" % (base, d, base, head, head), cwd=WT)
+                if rc != 0:
+                    sh("git cherry-pick --abort ; git reset -q --hard ; git checkout -q --detach %s" % head, cwd=WT)
+        if rc != 0:
             print("%s: PATCH DOES NOT APPLY at %s" % (sid, head[:7]))
             bad.append(sid)
             continue
